@@ -1,5 +1,5 @@
 CONSTANTS
-  Impl = "intended"
+  Impl = "current"
   ReadImpl = "asis"
   EofWithData = TRUE
   MaxNalLen = 2
